@@ -68,7 +68,7 @@ print(json.dumps(res))
 
 
 def run(ctx, build):
-    R = ctx.runner('Tftp')
+    R = ctx.try_runner('Tftp')
     rng = ctx.rng
     nsess = 150 if ctx.thorough else 45
     if ctx.widen:
